@@ -28,7 +28,7 @@ def kinds_of(shape):
     n, f, fp, pat = shape["n"], shape["fault"], shape["fpos"], shape["pat"]
     out = []
     for j in range(1, n + 1):
-        if f in "EPNMASCDWRZ" and len(f) == 1 and j == fp:
+        if f in "EPNMASCDWRZT" and len(f) == 1 and j == fp:
             out.append(f)
         elif pat == "allU":
             out.append("U")
@@ -73,6 +73,9 @@ def file_text(shape, j, kinds, formatted=False):
         return (pre + f"fn k{j}() {{ let = ; }}\nfn  z( ){{}}\n").encode(), None
     if k == "Z":
         return b"", b"\n"
+    if k == "T":
+        good = pre + ("\n" if pre else "") + body("F", j, True)
+        return (good + "\n\n").encode(), good.encode()
     if k == "R":
         return (pre + f"fn k{j}() {{ let x = 1 === 2; }}\nfn  z( ){{}}\n").encode(), None
     if k == "P":
@@ -326,7 +329,7 @@ def observe(sc, layout, code, out, err):
     unix = sc["fl"].get("nl") == "unix"
 
     def rew(k):
-        return k in "UDZ" or (k == "W" and unix)
+        return k in "UDZT" or (k == "W" and unix)
     # (a CRLF file under newline_style=Auto is printed with LF by the stdout emitter while
     # files mode leaves it alone: that is C08's Auto finding, not judged here)
     emitted = [(p, ("U" if rew(k) else "F"), t) for (p, k, t) in emitted]
